@@ -29,6 +29,7 @@ type Replay struct {
 	Tier     int     `json:"tier"`
 	Events   []Event `json:"events"`
 	Schedule []int   `json:"schedule,omitempty"`
+	Stress   bool    `json:"stress,omitempty"`
 }
 
 var (
@@ -132,6 +133,10 @@ func RunReplay(fns map[string]func()) {
 	f, ok := fns[r.Harness]
 	if !ok {
 		fmt.Printf("VERIF-REPLAY-OUTCOME: error: unknown harness %s\n", r.Harness)
+		return
+	}
+	if r.Stress {
+		runStress(f)
 		return
 	}
 	outcome := "ok"
